@@ -105,10 +105,12 @@ def run(ctx):
 
     # ---- seeds: PBKDF2 over the NFKD-normalised sentence and passphrase ---------------------------------------------------
     passes = ['', 'TREZOR', 'correct horse', 'pässwörd', 'pässwörd', 'パスワード', 'ﬁ Ω Å', 'é́x']
+    # passphrases that are text which LOOKS like hexadecimal digits, or is blank: still text (UTF-8 of the characters)
+    hexlike = ['1234', 'cafe', 'DEAD BEEF', '00', ' ', '  ', 'abcdef0123456789', ('%02x' % rng.randrange(256)) * rng.randint(1, 16)]
     for lang in langs:
         m = Mnemonic(lang)
         for words, e in rng.sample(sentences[lang], 6 if T else 2):
-            for pw in (passes if T else rng.sample(passes, 3) + ['pässwörd']):
+            for pw in (passes + hexlike if T else rng.sample(passes, 3) + ['pässwörd'] + rng.sample(hexlike, 2)):
                 try:
                     py = m.to_seed(words, pw).hex()
                 except Exception:
@@ -143,7 +145,7 @@ def run(ctx):
     mk_cases = []
     for lang in ('english',):          # HDKey.from_passphrase reads the sentence with the default (English) word list
         for words, e in rng.sample(sentences[lang], 8 if T else 4):
-            pw = rng.choice(passes)
+            pw = rng.choice(passes + hexlike)
             s_n = unicodedata.normalize('NFKD', words).encode('utf8')
             p_n = unicodedata.normalize('NFKD', pw).encode('utf8')
             seedhex = run_driver(['bip39_seed %s %s' % (s_n.hex(), hexp(p_n))])[0].split(' | ')[0].strip()
